@@ -40,6 +40,7 @@ type endpointX struct {
 	Req             []elemX
 	Resp            map[int][]elemX // by status code (only statuses used by exactly one response)
 	Unmodelled      string
+	Routing         string // RunRouting.rcase_t term without its index ("" = outside the routing model)
 }
 
 type extracted struct {
@@ -322,6 +323,9 @@ func extract(root *expr.RootExpr, d *dg.Design) *extracted {
 		for _, e := range hs.HTTPEndpoints {
 			ep := &endpointX{Service: hs.Name(), Method: e.Name(), Resp: map[int][]elemX{}}
 			ex.endpoints[hs.Name()+"/"+e.Name()] = ep
+			if t, ok := routingCase(root, e); ok {
+				ep.Routing = t
+			}
 			func() {
 				defer func() {
 					if r := recover(); r != nil {
@@ -382,7 +386,7 @@ func epIdent(key string, ep *endpointX, what string) string {
 // writeHeader writes the per-design definitions the case lines refer to.
 func writeHeader(p string, items []*built) {
 	var b strings.Builder
-	b.WriteString("From Coq Require Import QArith.\nFrom Validation Require Import Model Run Schema RunSchema.\nClose Scope Q_scope.\nOpen Scope nat_scope.\n")
+	b.WriteString("From Coq Require Import QArith.\nFrom Validation Require Import Model Run Schema RunSchema Routing RunRouting.\nClose Scope Q_scope.\nOpen Scope nat_scope.\n")
 	for _, it := range items {
 		if it.bu == nil || it.bu.Dropped || it.ex == nil {
 			continue
